@@ -8,7 +8,7 @@ TAB-STEP   one-step tables of Chars/CharIndices next/next_back (boundary search 
            offsets; ISO for the R* types; as_str.    TAB-BOUND  one-iteration relation of the two boundary
            searches (move by one, stop on the forgiving boundary predicate).
 """
-from .. import bits, byteset, ivset, sym, table
+from .. import accessors, bits, byteset, ivset, sym, table
 from ..sym import show
 from ..table import Row, eq, ne, Int
 
@@ -26,12 +26,18 @@ def run(ctx):
         decode(ctx, prog, enc)
         steps(ctx, prog)
         bounds(ctx, prog)
+        # the conversions the interleavings go through: copy() is a field-wise copy, rev() the other direction's type with the same fields
+        for fwd, rev, nf in (("Chars", "RChars", 1), ("CharIndices", "RCharIndices", 2)):
+            for ty, other in ((fwd, rev), (rev, fwd)):
+                accessors.rebuild(ctx, "ACC", prog, CM + ty + "::copy", nfields=nf)
+                accessors.rebuild(ctx, "ACC", prog, CM + ty + "::rev", target=CM + other, byref=False, nfields=nf)
     ctx.floor("D3-SCALAR", 1)
     ctx.floor("D4-ENCODE", 4)
     ctx.floor("D4-DECODE", 4)
     ctx.floor("TAB-STEP", 4)
     ctx.floor("ISO", 4)
     ctx.floor("TAB-BOUND", 2)
+    ctx.floor("ACC", 16)
 
 
 def cond_set_wide(paths, hole, lo=0, hi=(1 << 32) - 1):
